@@ -1,6 +1,7 @@
 package rules
 
 import (
+	"os"
 	"fmt"
 	"go/token"
 	"go/types"
@@ -578,7 +579,7 @@ func c05(c *core.Ctx) {
 					viaHelper := false
 					if !isCtor {
 						// a check helper of the module that answers with an error it constructs (checkSize(n, max) error)
-						if h := call.Call.StaticCallee(); h != nil && h.Blocks != nil && strings.HasPrefix(core.InfoOf(&call.Call).Pkg, core.ModulePath) && core.RecvName(h) == "" && mayMakeStatusError(h, 0) {
+						if h := call.Call.StaticCallee(); h != nil && h.Blocks != nil && strings.HasPrefix(core.InfoOf(&call.Call).Pkg, core.ModulePath) && core.RecvName(h) != nt.Obj().Name() && mayMakeStatusError(h, 0) {
 							isCtor, viaHelper, code = true, true, -1
 						}
 					}
@@ -2550,16 +2551,40 @@ func c05HTTPServerFence(c *core.Ctx) {
 		tn := nt.Obj().Name()
 		wField := ""
 		var bools []string
-		for _, ff := range core.FlatFields(st) {
-			switch core.TypeStr(ff.Var.Type()) {
-			case "net/http.ResponseWriter":
-				wField = ff.Var.Name()
-			case "bool":
-				bools = append(bools, ff.Var.Name())
+		// the fields of the stream, those of private structs it holds by value included (a group of write-side fields
+		// moved into a part of their own)
+		var collect func(st *types.Struct, depth int)
+		collect = func(st *types.Struct, depth int) {
+			for i := 0; i < st.NumFields(); i++ {
+				f := st.Field(i)
+				switch core.TypeStr(f.Type()) {
+				case "net/http.ResponseWriter":
+					wField = f.Name()
+				case "bool":
+					bools = append(bools, f.Name())
+				}
+				if sub, isSt := f.Type().Underlying().(*types.Struct); isSt && depth < 2 && strings.HasPrefix(core.QualNamedOf(f.Type()), core.ModulePath) {
+					collect(sub, depth+1)
+				}
 			}
 		}
+		collect(st, 0)
 		if wField == "" {
 			continue
+		}
+		// is v (a field address / load) a field of the stream object, directly or through such a part?
+		ofStream := func(base ssa.Value) bool {
+			for k := 0; k < 3; k++ {
+				if core.NamedOf(base.Type()) == tn {
+					return true
+				}
+				b2, _, ok := core.FieldOf(base)
+				if !ok {
+					return false
+				}
+				base = b2
+			}
+			return false
 		}
 		n++
 		// the fence: a bool field stored true in a streaming HTTP handler literal on every path from each stream
@@ -2579,7 +2604,7 @@ func c05HTTPServerFence(c *core.Ctx) {
 				var stores []ssa.Instruction
 				core.Instrs(hc.Fn, func(in ssa.Instruction) {
 					if s, ok := in.(*ssa.Store); ok {
-						if base, f, isF := core.FieldOf(s.Addr); isF && f == bf && core.NamedOf(base.Type()) == tn {
+						if base, f, isF := core.FieldOf(s.Addr); isF && (f == bf || strings.HasSuffix(f, "."+bf)) && ofStream(base) {
 							if b, isC := core.ConstBool(s.Val); isC && b {
 								stores = append(stores, in)
 							}
@@ -2599,7 +2624,7 @@ func c05HTTPServerFence(c *core.Ctx) {
 					sets := false
 					core.Instrs(h, func(x ssa.Instruction) {
 						if s, ok := x.(*ssa.Store); ok {
-							if _, f, isF := core.FieldOf(s.Addr); isF && f == bf {
+							if _, f, isF := core.FieldOf(s.Addr); isF && (f == bf || strings.HasSuffix(f, "."+bf)) {
 								if b, isC := core.ConstBool(s.Val); isC && b {
 									sets = true
 								}
@@ -2610,6 +2635,9 @@ func c05HTTPServerFence(c *core.Ctx) {
 						stores = append(stores, in)
 					}
 				})
+				if os.Getenv("GRPCHANLINT_DEBUG_FENCE") != "" {
+					fmt.Fprintf(os.Stderr, "fence candidate %s in %s: %d stores\n", bf, core.FuncName(hc.Fn), len(stores))
+				}
 				if len(stores) == 0 {
 					continue
 				}
@@ -2660,7 +2688,7 @@ func c05HTTPServerFence(c *core.Ctx) {
 				return false
 			}
 			_, fld, isF := core.FieldOf(f.X)
-			return isF && fld == fence
+			return isF && (fld == fence || strings.HasSuffix(fld, "."+fence))
 		}
 		for _, fn := range typeFuncs(p, nt) {
 			core.InstrsDeep(fn, func(f *ssa.Function, in ssa.Instruction) {
@@ -2676,7 +2704,7 @@ func c05HTTPServerFence(c *core.Ctx) {
 				for _, a := range ops {
 					if core.OriginIs(a, func(o ssa.Value) bool {
 						base, fld, isF := core.FieldOf(o)
-						return isF && fld == wField && core.NamedOf(base.Type()) == tn
+						return isF && (fld == wField || strings.HasSuffix(fld, "."+wField)) && ofStream(base)
 					}) {
 						uses = true
 					}
